@@ -59,7 +59,8 @@ def run(ctx):
                                "t = a.copy(); n_ = t.ndim; v_ = t.values; v_ += b.values; out = t",
                                "t = a.copy(); n_ = t.ndim; m_ = t.null; m_ |= b.null; out = t + 1"])
         subs = [{"names": ["b"]}, {"names": ["a"]}, {"names": ["a", "b"]}]
-        c = {"id": f"FI-{i}", "inputs": {"a": a, "b": b}, "impl": form, "oracle": None, "tol": [0, 0],
+        orc_ = form.replace("ndx.asarray(a, copy=True)", "a.copy()") if form.startswith(("u = a.copy(); a[0]", "t = a.copy(); u = t.copy()", "u = ndx.asarray(a, copy=True)")) else None
+        c = {"id": f"FI-{i}", "inputs": {"a": a, "b": b}, "impl": form, "oracle": orc_, "tol": [0, 0],
              "meta": {"func": "inplace-mixed", "dtype": d, "dclass": family.dclass(d)}, "lazy_subsets": subs}
         for s_ in subs:
             s_["feeds"] = [{k: c["inputs"][k] for k in s_["names"]}] + [{k: perturb(rnd, c["inputs"][k]) for k in s_["names"]} for _ in range(2)]
@@ -99,6 +100,11 @@ def run(ctx):
         eg = r.get("eager")
         if not eg or "ok" not in eg:
             continue        # the program does not evaluate on data: nothing to fold
+        orc = r.get("oracle")
+        if c.get("oracle") and orc and "ok" in orc:
+            why = ops.cmp_arrays(orc["ok"], eg["ok"], c["tol"][0], c["tol"][1])
+            if why:
+                ctx.finding(family.attrs_of(c, "value-" + why, "eager"), f"a copy taken before an item assignment reports the assigned data ({why}): {c['impl'][:120]}", family.replay_of(c, r, "eager"))
         for sub, tr in zip(c["lazy_subsets"], r.get("traced", [])):
             if "meta" not in tr:
                 continue
